@@ -5,6 +5,7 @@ package datas_test
 
 import (
 	"fmt"
+	"sort"
 
 	"pgregory.net/rapid"
 )
@@ -23,7 +24,11 @@ type verifRGen struct {
 
 const verifRKeep = verifRBranchPfx + "keep"
 
+// verifRWeighted lists the kinds, each repeated by its weight, heaviest first (rapid's
+// SampledFrom leans towards the front of the slice).
 func verifRWeighted(w map[string]int, order []string) []string {
+	order = append([]string{}, order...)
+	sort.SliceStable(order, func(i, j int) bool { return w[order[i]] > w[order[j]] })
 	var out []string
 	for _, k := range order {
 		for i := 0; i < w[k]; i++ {
